@@ -89,7 +89,11 @@ def _check_flag_table(ctx, model, dm):
         mem = model.lookup(dm, hname_)
         if mem is None or mem.kind != "func" or mem.owner is not dm:
             continue
-        wit, n_ = depjudge.judge(hname_, mem.node, flag, ncls, dm.node)
+        try:
+            wit, n_ = depjudge.judge(hname_, mem.node, flag, ncls, dm.node)
+        except AnalysisError as e:
+            ctx.extra[f"judge_unavailable:{hname_}"] = str(e)
+            continue
         n_judged += n_
         verdict[hname_] = not wit
         ctx.ob(f"T0/DependencyMapper/{hname_}/flag-semantics", not wit, where(mem),
@@ -99,7 +103,8 @@ def _check_flag_table(ctx, model, dm):
                "off" if not wit else
                f"DependencyMapper.{hname_} does not follow the flag table: " +
                "; ".join(w[:240] for w in wit[:2]), {"cases": n_})
-    ctx.floor("DependencyMapper flag cases interpreted", n_judged, 30)
+    if len(verdict) == len(FLAG_TABLE):
+        ctx.floor("DependencyMapper flag cases interpreted", n_judged, 30)
     mark = len(ctx.obs)
     try:
         _check_flag_table_structural(ctx, model, dm)
